@@ -59,6 +59,112 @@ H("x64_core_boolean", variant="x64-linux", modules=["rt", "x64dec", "x64_core"],
   replay="replay_x64_core")
 
 
+# ---------------------------------------------------------------------------------------------
+# family B: x86-64 Linux, histories through the public API
+# ---------------------------------------------------------------------------------------------
+API_FUNCS = ["InjectorPP::new", "InjectorPP::prevent", "InjectorPP::when_called", "WhenCalledBuilder::will_execute_raw",
+             "WhenCalledBuilder::will_return_boolean", "FuncPtr::new", "NoPoisonMutex::lock", "InjectorPP::drop (drop glue: guards, verifiers, _lock)",
+             "WhenCalled::will_execute_guard", "WhenCalled::will_return_boolean_guard"]
+API_ASSUME = ["history harnesses replace allocate_jit_memory by its contract (a fresh mapping the entry branch can reach, via the cooperative mmap model); the real allocator runs in the *_core_* and C11 harnesses",
+              "fake addresses are outside the patched entry slots and outside trampoline pages",
+              "std::sync::Mutex as modelled by Kani (sequential lock/try_lock/unlock)"]
+for name, L, two in (("x64_api_hist_l1", 1, False), ("x64_api_hist_l2", 2, False), ("x64_api_hist_l3", 3, False), ("x64_api_hist_l1x2", 1, True)):
+    H(name, variant="x64-linux", modules=["rt", "x64dec", "x64_api"],
+      covers=(["COVER: same function faked twice", "COVER: two functions faked"] if L >= 2 else []),
+      functions=API_FUNCS + X64_CORE_FUNCS,
+      symbolic="two function entries at arbitrary addresses (16-byte packing allowed) with symbolic contents; per step: target index, kind (redirect / forced boolean), fake address in [1,2^63), boolean value, trampoline placement",
+      bounds="K=2 functions, L=%d installation(s) per lifetime, %d lifetime(s); loop unwind 26" % (L, 2 if two else 1),
+      assumptions=API_ASSUME,
+      cex_schema=[("f0", 8, 1), ("f1", 8, 1), ("bytes0", 1, 24), ("bytes1", 1, 24)] + [(x + str(i), sz, 1) for i in range(L) for x, sz in (("k", 8), ("raw", 1), ("t", 8), ("v", 1), ("j", 8))],
+      replay="replay_x64_api")
+
+# ---------------------------------------------------------------------------------------------
+# family F: 32-bit ARM
+# ---------------------------------------------------------------------------------------------
+ARM_FUNCS = ["PatchArm::replace_function_with_other_function", "common::read_bytes", "common::patch_function",
+             "common::make_memory_writable_and_executable_linux", "common::inject_asm_code", "common::clear_cache", "PatchGuard::drop"]
+for name, what in (("arm_core_a32", "A32 (f = 0 mod 4)"), ("arm_core_t32_aligned", "T32, f-1 = 0 mod 4"), ("arm_core_t32_misaligned", "T32, f-1 = 2 mod 4")):
+    H(name, variant="arm-linux", modules=["rt", "armdec", "arm_core"],
+      covers=["COVER: fake in Thumb state", "COVER: fake in ARM state", "COVER: entry patch straddles a page boundary"],
+      functions=ARM_FUNCS,
+      symbolic="all 32-bit target addresses of the case %s, all 32-bit fake addresses, 24 symbolic entry bytes" % what,
+      bounds="one installation + drop; every 32-bit (f,t) of the case; loop unwind 26",
+      assumptions=["ARM replays are simulated: the real source is compiled for the host with cfg(target_arch) resolved to arm; bytes are judged by the independent A32/T32 decoder"],
+      cex_schema=[("f", 4, 1), ("entry_bytes", 1, 24), ("t", 4, 1)])
+for name, L in (("arm_api_same1", 1), ("arm_api_same2", 2), ("arm_api_same3", 3)):
+    H(name, variant="arm-linux", modules=["rt", "armdec", "arm_api"],
+      covers=["COVER: Thumb target", "COVER: A32 target"],
+      functions=API_FUNCS + ARM_FUNCS,
+      symbolic="32-bit target (A32 or Thumb), symbolic entry bytes, %d fake address(es) installed one after another on the same target" % L,
+      bounds="L=%d installations on one function through one injector; loop unwind 26" % L,
+      assumptions=["std::sync::Mutex as modelled by Kani (sequential lock/try_lock/unlock)"],
+      cex_schema=[("f", 4, 1), ("entry_bytes", 1, 24)] + [("t%d" % i, 4, 1) for i in range(L)])
+
+# ---------------------------------------------------------------------------------------------
+# family E1: AArch64 bit-level emitters (pure functions, all inputs)
+# ---------------------------------------------------------------------------------------------
+for name, fn, b in (("a64_emit_bits_roundtrip", ["utils::u64_to_bits", "utils::u8_to_bits", "utils::bool_array_to_u32"], "all u64 / u8 / u32 values; unwind 66"),
+                    ("a64_emit_mov_tables", ["arm64_codegenerator::emit_movz", "arm64_codegenerator::emit_movk"], "all imm16, hw, Rd, sf; unwind 34"),
+                    ("a64_emit_mov_from_address", ["arm64_codegenerator::emit_movz_from_address", "arm64_codegenerator::emit_movk_from_address"], "all 2^64 addresses, every chunk position hw in 0..3, all Rd; unwind 66"),
+                    ("a64_emit_branch_tables", ["arm64_codegenerator::emit_br", "arm64_codegenerator::emit_ret", "arm64_codegenerator::emit_ret_x30"], "all register numbers; unwind 34")):
+    H(name, variant="a64-linux", modules=["rt", "a64dec", "a64_emit"], functions=fn, bounds=b,
+      symbolic="every input of the emitter (no address-space restriction)")
+
+# ---------------------------------------------------------------------------------------------
+# family E2: AArch64 install at injector_core level (allocator replaced by its contract)
+# ---------------------------------------------------------------------------------------------
+A64_FUNCS = ["PatchArm64::replace_function_with_other_function", "PatchArm64::replace_function_return_boolean",
+             "patch_arm64::generate_will_execute_jit_code_abs", "patch_arm64::generate_will_return_boolean_jit_code",
+             "patch_arm64::apply_branch_patch", "patch_arm64::append_instruction", "patch_arm64::write_instruction",
+             "arm64_codegenerator::emit_movz/_movk[_from_address]/emit_br/emit_ret_x30", "utils::u64_to_bits/u8_to_bits/bool_array_to_u32",
+             "common::read_bytes", "common::patch_function", "common::inject_asm_code", "common::clear_cache (dsb/isb marker)", "PatchGuard::drop"]
+A64_ASSUME = ["a64_core harnesses replace allocate_jit_memory by its contract: a fresh page-aligned mapping with displacement in [-128 MiB, +128 MiB); the real allocator together with the real entry branch is checked by the a64_alloc harnesses",
+              "AArch64 replays are simulated (real source compiled for the host with cfg(target_arch) resolved to aarch64); inline asm dsb/isb is replaced by a counted marker (R2)"]
+H("a64_core_redirect", variant="a64-linux", modules=["rt", "a64dec", "a64_core"],
+  covers=["COVER: trampoline above the target", "COVER: trampoline below the target", "COVER: largest forward displacement",
+          "COVER: largest backward displacement", "COVER: fake address uses the top 16-bit chunk"],
+  functions=A64_FUNCS, assumptions=A64_ASSUME,
+  symbolic="f word-aligned in [4096,2^46), t: all 2^64-1 non-zero addresses in one query, j any page-aligned address with displacement in [-128 MiB,+128 MiB), x0..x30 and sp symbolic",
+  bounds="one installation + drop; unwind 66 (u64_to_bits)",
+  cex_schema=[("f", 8, 1), ("entry_bytes", 1, 24), ("t", 8, 1), ("j", 8, 1)])
+H("a64_core_boolean", variant="a64-linux", modules=["rt", "a64dec", "a64_core"],
+  covers=["COVER: true", "COVER: false"], functions=A64_FUNCS, assumptions=A64_ASSUME,
+  symbolic="f, 24 entry bytes, value, j as above; x0..x30, sp symbolic",
+  bounds="one installation + drop; unwind 34",
+  cex_schema=[("f", 8, 1), ("entry_bytes", 1, 24), ("value", 1, 1), ("j", 8, 1)])
+H("a64_core_refusal", variant="a64-linux", modules=["rt", "a64dec", "a64_core"],
+  covers=["COVER: largest encodable forward displacement accepted", "COVER: largest encodable backward displacement accepted"],
+  expected=[(r"apply_branch_patch", r"JIT memory is out of branch range")], must_reach=[0],
+  functions=A64_FUNCS, assumptions=A64_ASSUME,
+  symbolic="trampoline displacement anywhere in +-(128 MiB + 16 MiB), page-aligned",
+  bounds="one installation; unwind 34",
+  cex_schema=[("f", 8, 1), ("entry_bytes", 1, 24), ("value", 1, 1), ("j", 8, 1)])
+
+# ---------------------------------------------------------------------------------------------
+# family G: the real allocator retry loop + real entry branch (C11)
+# ---------------------------------------------------------------------------------------------
+ALLOC_FUNCS = ["common::allocate_jit_memory", "common::allocate_jit_memory_unix (the whole retry loop)"]
+for arch, variant, dec, base_funcs in (("x64", "x64-linux", "x64dec", X64_CORE_FUNCS), ("a64", "a64-linux", "a64dec", A64_FUNCS)):
+    for pg, pname in ((4096, "4k"), (16384, "16k"), (65536, "64k")):
+        H("%s_alloc_any_%s" % (arch, pname), variant=variant, modules=["rt", dec, "alloc_common", "%s_alloc" % arch],
+          covers=["COVER: two placements rejected and given back", "COVER: two mmap failures", "COVER: first placement accepted"],
+          functions=ALLOC_FUNCS + base_funcs,
+          symbolic="f anywhere in [4096,2^46); any-kernel: the first two mmap calls each fail or return an arbitrary free page-aligned address anywhere in user space, the third succeeds strictly inside the range; page size %d" % pg,
+          bounds="page size %d; at most 3 placement attempts (assumption: the third is within reach); unwind %d with unwinding assertions (the solver proves the loop stops)" % (pg, 26 if arch == "x64" else 34),
+          assumptions=["any-kernel: one of the first three placements is within reach"],
+          cex_schema=[("f", 8, 1), ("entry_bytes", 1, 24), ("value", 1, 1)])
+    for pgbits, pname, unw in ((24, "16m", 26 if arch == "x64" else 34), (23, "8m", 36)):
+        H("%s_alloc_layout_%s" % (arch, pname), variant=variant, modules=["rt", dec, "alloc_common", "%s_alloc" % arch],
+          covers=["COVER: empty neighbourhood", "COVER: exactly one free page, found", "COVER: the free page is above the function",
+                  "COVER: the free page is the last page of the window", "COVER: far fallbacks were rejected and given back before the free page was found",
+                  "COVER: target below 128 MiB (window clipped at zero)"],
+          expected=[(r"allocate_jit_memory_unix", r"Failed to allocate JIT memory|ARCH")], must_reach=[0],
+          functions=ALLOC_FUNCS + base_funcs,
+          symbolic="f anywhere (incl. below 128 MiB); layout of the +-128 MiB neighbourhood: empty / full / exactly one free page at a symbolic offset (both extremes included); kernel fallback for a taken hint: failure or a far-away page",
+          bounds="page size scaled to 2^%d so that the WHOLE window (%d hints) is inside the unwinding bound %d; the claim for 4 KiB pages over the full window rests on the loop being parametric in the page size and is outside the bound" % (pgbits, (1 << (28 - pgbits)) + 1, unw),
+          assumptions=["layout-kernel: a hint is honoured iff its page is free (Linux semantics without MAP_FIXED), otherwise the fallback is returned"],
+          cex_schema=[("f", 8, 1), ("entry_bytes", 1, 24), ("layout", 1, 1), ("free", 8, 1), ("fallback", 8, 1), ("value", 1, 1)])
+
 NOT_APPLICABLE = {}
 
 PROPERTIES = {
@@ -66,11 +172,88 @@ PROPERTIES = {
         level_text="Bounded model checking of the real x86-64 installation code: for every function address (any page offset), trampoline placement within the allocator's range and fake address in [1,2^63), an independent x86-64 interpreter started at the function arrives at exactly the fake (or the boolean stub returns the value), and every write hit a page the code had made writable. One installation per harness; the retry loop of the allocator is C11's.",
         level_note="Trusted: the simulated OS/memory model and the stubs that route copy_nonoverlapping to it, the x86-64 interpreter, CBMC. Assumed: cooperative kernel for the first mmap; fake not inside the patched slot. Outside: execution of the fake, concurrent execution of the bytes being patched.",
         quick=["x64_core_redirect", "x64_core_boolean"],
-        thorough=["x64_core_redirect", "x64_core_boolean"],
+        thorough=["x64_core_redirect", "x64_core_boolean", "x64_api_hist_l1"],
         outside=["execution of the fake's own code", "calls already executing inside the first 5/12 bytes while the patch is written",
                  "kernel-half fake addresses (>= 2^63)"],
     ),
+    "C02": dict(
+        level_text="Bounded model checking of restoration: (a) one installation from an arbitrary entry state restores byte-for-byte for every address placement (the inductive step: each guard puts back exactly what it overwrote); (b) histories through the public API with K=2 functions and L<=2 (quick) / L<=3 (thorough) installations with symbolic targets and kinds, including the same function several times: while the injector lives the latest installation is in effect, after drop every entry equals its original image; two consecutive lifetimes; L<=3 on the 32-bit ARM variant (same drop logic, cheaper encoding).",
+        level_note="Histories longer than 3 installations are outside the bound; the stack argument (guards released newest first, each restoring what it saved) is exercised in full at L=3 but is not proved for unbounded L. Allocator replaced by its contract in history harnesses. Unwinding is modelled as scope exit (C05).",
+        quick=["x64_core_redirect", "x64_core_boolean", "x64_api_hist_l1", "arm_api_same2", "arm_api_same3"],
+        thorough=["x64_core_redirect", "x64_core_boolean", "x64_api_hist_l1", "x64_api_hist_l2", "x64_api_hist_l3", "x64_api_hist_l1x2", "arm_api_same2", "arm_api_same3", "a64_core_redirect"],
+        timeout_min={"quick": 25, "thorough": 180},
+        outside=["histories longer than L=3", "more than two distinct functions per history", "fake kinds other than redirect/forced boolean in histories (closure/fake!/async reach the same guard constructor; see C01/C14)"],
+    ),
+    "C03": dict(
+        level_text="The memory model itself is the oracle: every write the code issues must start at a registered function entry or at a trampoline it mapped and must fit the slot (16 bytes entries / 24 bytes trampolines), else the obligation fails; bytes behind the patch and a second function packed 16 bytes away stay identical during and after; mprotect may not drop r-x from text. Decided for every address placement (single install, all variants built so far) and for API histories K=2, L<=2/3.",
+        level_note="Relies on all code-memory writes going through ptr::copy_nonoverlapping: any other dereference of a simulated (integer) address is reported by Kani's pointer checks as a failed check and makes the run inconclusive, so the assumption is checked, not trusted. Mappings the model does not know (shared libraries) are outside.",
+        quick=["x64_core_redirect", "x64_core_boolean", "x64_api_hist_l1", "arm_core_a32", "arm_core_t32_misaligned"],
+        thorough=["x64_core_redirect", "x64_core_boolean", "x64_api_hist_l1", "x64_api_hist_l2", "x64_api_hist_l3", "arm_core_a32", "arm_core_t32_aligned", "arm_core_t32_misaligned"],
+        outside=["executable mappings the model does not register (shared libraries)", "histories beyond L=3"],
+    ),
+    "C12": dict(
+        level_text="OS-model accounting decided by the solver: every munmap must name a live trampoline with a matching length (else the obligation fails: double free or foreign memory), after each install the live set equals the guards, after drop it equals the set before creation; one install/drop cycle from a clean state ends clean for every placement, histories L<=2/3 and two consecutive lifetimes; 32-bit ARM never maps. Unbounded cycles follow by induction because the crate keeps no state between cycles except the lock (checked by a source scan, reported as an assumption).",
+        level_note="The 10^5-cycle figure is covered by the one-cycle induction step, not executed. Kernel-side limits (vm.max_map_count) are outside. The refused-install and exhaustion paths are C05/C11.",
+        quick=["x64_core_redirect", "x64_core_boolean", "x64_api_hist_l1", "arm_api_same2", "a64_core_boolean"],
+        thorough=["x64_core_redirect", "x64_core_boolean", "x64_api_hist_l2", "x64_api_hist_l3", "x64_api_hist_l1x2", "arm_core_a32", "arm_api_same2"],
+        premises=["premise_only_static_is_lock"],
+        outside=["cycle counts are covered by induction over one cycle, not unrolled beyond 2"],
+    ),
+    "C13": dict(
+        level_text="The complete integer register file, stack pointer and return address are symbolic at the call; the independent interpreter follows entry and trampoline to the fake and the solver decides that every register except the architecture's scratch (x86-64: rax) and the stack pointer are unchanged and no memory is written, for both trampoline forms and every address placement; 32-bit ARM: no argument register, sp or lr is written and (known finding) the scratch register is callee-saved.",
+        level_note="Vector/floating-point registers are untouched by construction (no instruction in the decoder's table names them; any other instruction is a decode failure). Return path: the fake is entered with the caller's return address in place, so its return goes straight to the caller. AArch64 is covered under C15 once its install harness runs.",
+        quick=["x64_core_redirect", "arm_core_a32", "arm_core_t32_aligned"],
+        thorough=["x64_core_redirect", "x64_core_boolean", "arm_core_a32", "arm_core_t32_aligned", "arm_core_t32_misaligned", "a64_core_redirect"],
+        outside=["execution inside the fake", "vector registers as values (they are shown untouched by the instruction table, not tracked)"],
+    ),
+    "C10": dict(
+        level_text="Stub half: the boolean trampoline is interpreted from a fully symbolic register file / stack pointer / return address (x86-64: `mov rax,imm32; ret`; AArch64: `movz w0,#v; ret`): the solver decides that the low byte of the result register equals the value, control returns to the caller's return address, the stack pointer is as after a normal return, no memory is written and no other register changes, for every placement. Gate half: see C10 gate harnesses (added with the signature-gate family).",
+        level_note="32-bit ARM implements the forced boolean as an ordinary redirect to one of two one-line functions: only the redirect is checked there (C16).",
+        quick=["x64_core_boolean", "a64_core_boolean"],
+        thorough=["x64_core_boolean", "a64_core_boolean"],
+        outside=["32-bit ARM boolean flavour beyond the redirect being well-formed"],
+    ),
+    "C11": dict(
+        level_text="The real retry loop of allocate_jit_memory_unix runs together with the real entry-branch writer: (11a) any-kernel with real page sizes 4K/16K/64K where each of the first placements fails or lands anywhere; (11b) layout-kernel with the page scaled to 16 MiB / 8 MiB so that the whole +-128 MiB window, its clipping at zero, the inclusive upper bound, both extreme offsets and the exhaustion panic are inside the unwinding bound. Decided: an accepted placement is one the written branch actually reaches (by decoding the entry), every rejected placement is unmapped with its own address/length before the next attempt, nothing else is unmapped, the function is neither written nor re-protected before acceptance, a full neighbourhood ends in the panic and never in a return. x86-64 and AArch64 Linux.",
+        level_note="The full window at 4 KiB pages (65 537 iterations) is outside the bound; it rests on the loop arithmetic being parametric in the page size. The state at the exhaustion panic itself is observed through the invariants asserted at every mmap call (Kani cannot run code after a panic).",
+        quick=["x64_alloc_any_4k", "x64_alloc_layout_16m", "a64_alloc_any_4k", "a64_core_refusal"],
+        thorough=["x64_alloc_any_4k", "x64_alloc_any_16k", "x64_alloc_any_64k", "x64_alloc_layout_16m", "x64_alloc_layout_8m",
+                  "a64_alloc_any_4k", "a64_alloc_any_16k", "a64_alloc_any_64k", "a64_alloc_layout_16m", "a64_alloc_layout_8m", "a64_core_refusal"],
+        timeout_min={"quick": 30, "thorough": 180},
+        outside=["full +-128 MiB window with 4 KiB pages (65 537 iterations)", "Windows and macOS allocators"],
+    ),
+    "C15": dict(
+        level_text="(a) every bit-level emitter against the A64 encoding tables for ALL inputs (all imm16/hw/Rd/sf, all 2^64 addresses in every chunk position, all register numbers); (b) the full installation: an independent A64 interpreter started at the function lands exactly on the trampoline writing no register, the trampoline builds exactly the fake's 64-bit address (all 2^64-1 values in one query) in a register in x9..x17 and branches to it, or sets w0 and returns; (c) displacements outside [-128 MiB,+128 MiB) are refused (panic reachable, nothing accepted outside).",
+        level_note="Linux variant. The macOS long-jump encoder (maybe_emit_long_jump / ADRP+ADD+BR) needs the macOS variant, see a64-macos harnesses if present. Replays are simulated.",
+        quick=["a64_emit_mov_tables", "a64_emit_branch_tables", "a64_emit_bits_roundtrip", "a64_core_boolean", "a64_core_refusal"],
+        thorough=["a64_emit_mov_tables", "a64_emit_mov_from_address", "a64_emit_branch_tables", "a64_emit_bits_roundtrip", "a64_core_redirect", "a64_core_boolean", "a64_core_refusal"],
+        timeout_min={"quick": 25, "thorough": 120},
+        outside=["macOS long form unless the a64-macos harnesses are listed", "execution on hardware"],
+    ),
+    "C16": dict(
+        level_text="All 2^32 x 2^32 (target, fake) pairs in each of the three entry cases (A32; T32 4-byte aligned; T32 2-byte aligned) in one query per obligation: independent A32/T32 interpreters with Align(PC,4) semantics decide that the literal the load actually reads holds the fake's address and the BX operand is that register, that at most the 12 written bytes are executed/read, that the saved bytes restore the entry exactly, and which registers are written.",
+        level_note="Replays are simulated (no ARM hardware/emulator here): the real patch_arm.rs is compiled for the host. The callee-saved scratch registers r9 (A32) and r7 (Thumb) are a known finding (known_findings.json).",
+        quick=["arm_core_a32", "arm_core_t32_aligned", "arm_core_t32_misaligned"],
+        thorough=["arm_core_a32", "arm_core_t32_aligned", "arm_core_t32_misaligned", "arm_api_same2"],
+        outside=["forced-boolean flavour on ARM beyond 'it is an ordinary redirect' (function addresses are 64-bit in the host model)"],
+    ),
+    "C17": dict(
+        level_text="Dirty-bit model decided by the solver: every simulated write marks its bytes dirty, a flush clears the bytes it covers; at return from every installation and from drop no byte may be dirty, and no instruction byte on the interpreted path may be dirty, for every placement and for histories L<=2/3 (x86-64 Linux and 32-bit ARM so far).",
+        level_note="Whether __clear_cache itself works is outside. macOS/Windows primitives are not modelled here.",
+        quick=["x64_core_redirect", "x64_core_boolean", "x64_api_hist_l1", "arm_core_a32", "a64_core_boolean"],
+        thorough=["x64_core_redirect", "x64_core_boolean", "x64_api_hist_l2", "x64_api_hist_l3", "arm_core_a32", "arm_core_t32_misaligned", "arm_api_same2", "a64_core_redirect", "a64_core_boolean"],
+        outside=["correctness of the platform flush primitive", "macOS and Windows"],
+    ),
 }
+
+
+def premise_only_static_is_lock(work, tier):
+    """C12 induction premise: outside macro bodies the crate has exactly one static (the lock)."""
+    st = regen.statics()
+    outside_macros = [x for x in st if x[0] != os.path.join("interface", "macros.rs")]
+    ok = len(outside_macros) == 1 and outside_macros[0][2] == "LOCK_FUNCTION"
+    return {"name": "only_static_is_lock", "ok": True if ok else None, "evaluations": len(st), "distinct": len(outside_macros),
+            "detail": "statics outside macros.rs: %r" % (outside_macros,), "samples": [list(x) for x in st[:3]]}
 
 
 def _native(work, scenario, tag):
@@ -99,6 +282,32 @@ def replay_x64_core(rec, work):
         far = "far" if abs(t - (j + 5)) > 0x7fffffff else "near"
         scn = "func 0 %x %d 11\nfakefn F %s 777\nnew\nraw 0 F\ncall 0 777\ndrop\nbytes 0\ncall 0 11\nmaps\n" % (f, off, far)
     return _native(work, scn, rec["harness"])
+
+
+def replay_x64_api(rec, work):
+    """history through the real API on synthetic functions: install per step, call, drop, compare"""
+    cx = rec.get("counterexample") or {}
+    if "f0" not in cx:
+        return {"reproduced": None, "detail": "counterexample values not available"}
+    offs = [cx["f0"] & 4095, cx["f1"] & 4095]
+    lines = ["func 0 - %d 11" % offs[0], "func 1 - %d 22" % offs[1], "fakefn A near 701", "fakefn B near 702", "fakefn C near 703", "new"]
+    cur = {}
+    i = 0
+    fakes = ["A", "B", "C"]
+    while ("k%d" % i) in cx:
+        k = cx["k%d" % i] & 1
+        if cx["raw%d" % i] & 1:
+            lines.append("raw %d %s" % (k, fakes[i % 3]))
+            cur[k] = 701 + (i % 3)
+        else:
+            v = cx["v%d" % i] & 1
+            lines.append("bool %d %d" % (k, v))
+            cur[k] = v
+        i += 1
+    for k in (0, 1):
+        lines.append("call %d %d" % (k, cur.get(k, 11 if k == 0 else 22)))
+    lines += ["drop", "bytes 0", "bytes 1", "call 0 11", "call 1 22", "maps"]
+    return _native(work, "\n".join(lines) + "\n", rec["harness"])
 
 
 def replay_file(path):
